@@ -218,7 +218,7 @@ Proof.
             cache_ok (snd (snd (produce s c' dst d)))).
   { intros c' dst d Hc'. destruct (produce_correct s c' dst d Hc') as (H1 & H2 & H3).
     rewrite H1, H2. destruct (ctor_ok d); cbn [fst snd]; tri H3. }
-  destruct o as [i t cur|i|i|i|i fp|src dst data ty mode count|src dst t|src dst t|src dst];
+  destruct o as [i t cur|i|i|i|i fp|src dst data ty mode count|src dst t|src dst t|src dst|src dst o ty];
     cbn [sstep sfree].
   - apply P, Hc.
   - destruct (sget s i) as [d|]; [|tri Hc].
@@ -235,6 +235,7 @@ Proof.
   - destruct (sget s src) as [d|]; [|tri Hc]. apply P, Hc.
   - destruct (sget s src) as [d|]; [|tri Hc]. apply P, Hc.
   - destruct (sget s src) as [d|]; [|tri Hc]. apply P, Hc.
+  - destruct (sget s src) as [d|]; [|tri Hc]. apply P. now apply cache_ok_touch.
 Qed.
 
 Theorem srun_correct ops : forall s c,
